@@ -1,4 +1,178 @@
 import Driver.Common
+import AnyioModel.Thread.Worker
 
-/-- placeholder driver: replies `unimplemented` to every request -/
-def main : IO Unit := Driver.serve () (fun s _ => (s, "unimplemented"))
+/-!
+Line-protocol driver for the `to_thread.run_sync` model (exe `md_thread`).
+
+Harness-level requests (what the harness itself does to the real code):
+  new TOTAL | call C AB PRE | cancel C | finish C (v|e) N | settotal N | settle | obs
+`settle` plays the loop and the OS scheduler: it fires the internal events (`resume`, `report`,
+`deliver`, `tokenGranted`, `dispatch`, `threadStart`/`threadSkip`) through `step` until none is
+enabled; `threadFinish` is never fired by `settle` (the harness's gates decide it).
+Raw events are available too: granted/dispatch/tstart/tskip/report/deliver/resume/prune C.
+-/
+namespace Driver.Thread
+open AnyioModel AnyioModel.Thread.Worker
+
+structure DState where
+  s      : State
+  ncalls : Nat
+  /-- call ↦ what `resume` reported, in order of resumption -/
+  rets   : List (Nat × String)
+  /-- worker ↦ last call dispatched to it -/
+  lastJob : List (Nat × Nat)
+  /-- call ↦ the call that used the same worker immediately before (or none) -/
+  prev   : List (Nat × Option Nat)
+  /-- branch-hit counters -/
+  hits   : List (String × Nat)
+
+def DState.init (total : Nat) : DState :=
+  { s := AnyioModel.Thread.Worker.init total, ncalls := 0, rets := [], lastJob := [], prev := [], hits := [] }
+
+def bump (h : List (String × Nat)) (k : String) : List (String × Nat) :=
+  match h.find? (·.1 = k) with
+  | some _ => h.map (fun p => if p.1 = k then (p.1, p.2 + 1) else p)
+  | none => h ++ [(k, 1)]
+
+def outcomeStr : Outcome → String
+  | .val n => s!"v{n}"
+  | .exc n => s!"e{n}"
+
+def outStr : Out → String
+  | .susp => "susp"
+  | .ret o p => s!"ret:{outcomeStr o}:p{Driver.bool01 p}"
+  | .cancelled => "cancelled"
+  | .env => "env"
+
+def pcStr : Pc → String
+  | .none => "none" | .early => "early" | .waitingToken => "waiting" | .wcancel => "wcancel"
+  | .granted => "granted" | .awaiting => "awaiting" | .resolved => "resolved"
+  | .abandoned => "abandoned" | .returned => "returned"
+
+def thStr : Th → String
+  | .idle => "idle" | .queued => "queued" | .running => "running" | .finished => "finished"
+  | .over => "over"
+
+def evTag : Ev → String
+  | .call _ _ pre => if pre then "call-pre" else "call"
+  | .tokenGranted _ => "tokenGranted"
+  | .dispatch _ => "dispatch"
+  | .threadStart _ => "threadStart"
+  | .threadSkip _ => "threadSkip"
+  | .threadFinish _ (.val _) => "threadFinish-val"
+  | .threadFinish _ (.exc _) => "threadFinish-exc"
+  | .report _ => "report"
+  | .callerCancelled _ => "callerCancelled"
+  | .deliver _ => "deliver"
+  | .resume _ => "resume"
+  | .setTotal _ => "setTotal"
+  | .prune => "prune"
+
+/-- fire one event through the model, keeping the driver's bookkeeping -/
+def fire (d : DState) (e : Ev) : Option (DState × Out) :=
+  match step d.s e with
+  | none => none
+  | some (s', o) =>
+    let tag := match e, o with
+      | .resume _, .ret _ true => "resume-ret-pendingcancel"
+      | .resume _, .ret _ false => "resume-ret"
+      | .resume _, .cancelled =>
+        (match d.s.pc (match e with | .resume c => c | _ => 0) with
+         | .early => "resume-early" | .wcancel => "resume-wcancel" | _ => "resume-abandoned")
+      | .report c, _ => if d.s.fut c = .pending then "report-resolve" else "report-dropped"
+      | .callerCancelled c, _ => "callerCancelled@" ++ pcStr (d.s.pc c)
+      | .dispatch _, _ => if d.s.idle.isEmpty then "dispatch-new-worker" else "dispatch-reuse"
+      | _, _ => evTag e
+    let d1 := { d with s := s', hits := bump d.hits tag }
+    let d2 := match e with
+      | .call c _ _ => { d1 with ncalls := max d1.ncalls (c + 1) }
+      | .dispatch c =>
+        let w := s'.worker c
+        let p := (d.lastJob.find? (·.1 = w)).map (·.2)
+        { d1 with prev := d1.prev ++ [(c, p)],
+                  lastJob := (w, c) :: d.lastJob.filter (·.1 ≠ w) }
+      | .resume c => { d1 with rets := d1.rets ++ [(c, outStr o)] }
+      | _ => d1
+    some (d2, o)
+
+/-- candidates for the internal events, in the priority order `settle` tries them -/
+def internal (d : DState) : List Ev :=
+  let cs := List.range d.ncalls
+  cs.map .resume ++ cs.map .report ++
+  (cs.filter (fun c => d.s.cancelReq c &&
+      (decide (d.s.pc c = .waitingToken) || (decide (d.s.pc c = .awaiting) && d.s.abandon c)))).map
+    .deliver ++
+  cs.map .tokenGranted ++ cs.map .dispatch ++ cs.map .threadStart ++ cs.map .threadSkip
+
+def fireFirst (d : DState) : List Ev → Option DState
+  | [] => none
+  | e :: es =>
+    match fire d e with
+    | some (d', _) => some d'
+    | none => fireFirst d es
+
+def settle : Nat → DState → DState
+  | 0, d => d
+  | n + 1, d =>
+    match fireFirst d (internal d) with
+    | none => d
+    | some d' => settle n d'
+
+def obs (d : DState) : String :=
+  let s := d.s
+  let cs := List.range d.ncalls
+  let exec := (cs.filter (fun c => decide (s.th c = .running))).length
+  let execLive := (cs.filter (fun c => decide (s.th c = .running) && decide (s.fut c = .pending))).length
+  let per := cs.map (fun c =>
+    let got := match (d.rets.find? (·.1 = c)) with
+      | some (_, r) => r
+      | none => "-"
+    let pv := match (d.prev.find? (·.1 = c)) with
+      | some (_, some p) => toString p
+      | some (_, none) => "new"
+      | none => "-"
+    s!"{c}={pcStr (s.pc c)}/{thStr (s.th c)}/{got}/{pv}")
+  s!"borrowed={s.borrowers.length} waiting={s.waitq.length} idle={s.idle.length} " ++
+  s!"workers={s.nworkers} exec={exec} execlive={execLive} | " ++ " ".intercalate per
+
+def parseOutcome (k n : String) : Option Outcome := do
+  let m ← n.toNat?
+  if k = "v" then some (.val m) else if k = "e" then some (.exc m) else none
+
+def parseEv : List String → Option Ev
+  | ["call", c, ab, pre] => do
+    some (.call (← c.toNat?) (← Driver.parseBool ab) (← Driver.parseBool pre))
+  | ["cancel", c] => do some (.callerCancelled (← c.toNat?))
+  | ["finish", c, k, n] => do some (.threadFinish (← c.toNat?) (← parseOutcome k n))
+  | ["settotal", n] => do some (.setTotal (← n.toNat?))
+  | ["granted", c] => do some (.tokenGranted (← c.toNat?))
+  | ["dispatch", c] => do some (.dispatch (← c.toNat?))
+  | ["tstart", c] => do some (.threadStart (← c.toNat?))
+  | ["tskip", c] => do some (.threadSkip (← c.toNat?))
+  | ["report", c] => do some (.report (← c.toNat?))
+  | ["deliver", c] => do some (.deliver (← c.toNat?))
+  | ["resume", c] => do some (.resume (← c.toNat?))
+  | ["prune"] => some .prune
+  | _ => none
+
+def handle (d : DState) : List String → DState × String
+  | ["new", n] =>
+    match n.toNat? with
+    | some t => ({ DState.init t with hits := d.hits }, "ok")
+    | none => (d, "bad-op")
+  | ["obs"] => (d, obs d)
+  | ["settle"] =>
+    let d' := settle 10000 d
+    (d', "ok")
+  | ["hits"] => (d, " ".intercalate (d.hits.map (fun p => s!"{p.1}={p.2}")))
+  | ws =>
+    match parseEv ws with
+    | none => (d, "bad-op")
+    | some e =>
+      match fire d e with
+      | none => (d, "DISABLED")
+      | some (d', o) => (d', outStr o)
+
+end Driver.Thread
+
+def main : IO Unit := Driver.serve (Driver.Thread.DState.init 1) Driver.Thread.handle
